@@ -46,6 +46,13 @@ pub struct Config {
     /// ids of known findings listed as open for this property (from
     /// known_findings.json); only these may be matched instead of reported
     pub known: Vec<String>,
+    /// a single case running longer than this is reported as non-termination
+    pub hang_s: f64,
+    /// file (created by the driver) into which the in-flight cases are mirrored, so that
+    /// they survive an abort of this process
+    pub inflight_file: Option<String>,
+    /// where the JSON report goes (the hang watchdog writes it before exiting)
+    pub out_file: Option<String>,
 }
 
 impl Config {
@@ -331,6 +338,102 @@ pub fn guard<T>(f: impl FnOnce() -> T) -> Result<T, String> {
 }
 
 // ---------------------------------------------------------------------------
+// in-flight cases: 4 words per worker slot (family ordinal + 1, case index, start in ms, spare)
+
+pub const SLOTS: usize = 64;
+const WORDS: usize = 4;
+
+fn inflight(path: Option<&str>) -> &'static [AtomicU64] {
+    use std::sync::OnceLock;
+    static CELL: OnceLock<&'static [AtomicU64]> = OnceLock::new();
+    CELL.get_or_init(|| {
+        if let Some(p) = path {
+            if let Some(m) = map_shared(p, SLOTS * WORDS * 8) {
+                return m;
+            }
+        }
+        let v: Vec<AtomicU64> = (0..SLOTS * WORDS).map(|_| AtomicU64::new(0)).collect();
+        Box::leak(v.into_boxed_slice())
+    })
+}
+
+/// Maps a file MAP_SHARED so that plain stores reach the page cache and survive
+/// an abort of this process (no syscall per case).
+fn map_shared(path: &str, len: usize) -> Option<&'static [AtomicU64]> {
+    use std::os::unix::io::AsRawFd;
+    extern "C" {
+        fn mmap(addr: *mut u8, len: usize, prot: i32, flags: i32, fd: i32, off: i64) -> *mut u8;
+    }
+    let f = std::fs::OpenOptions::new().read(true).write(true).create(true).open(path).ok()?;
+    f.set_len(len as u64).ok()?;
+    // PROT_READ | PROT_WRITE = 3, MAP_SHARED = 1
+    let p = unsafe { mmap(std::ptr::null_mut(), len, 3, 1, f.as_raw_fd(), 0) };
+    if p.is_null() || p as isize == -1 {
+        return None;
+    }
+    // the mapping stays valid after the file handle is closed; u64-aligned (page aligned)
+    Some(unsafe { std::slice::from_raw_parts(p as *const AtomicU64, len / 8) })
+}
+
+fn spawn_hang_watchdog(cfg: &Config, names: Vec<String>, start: Instant) {
+    let slots = inflight(cfg.inflight_file.as_deref());
+    let cfg = cfg.clone();
+    std::thread::spawn(move || loop {
+        std::thread::sleep(std::time::Duration::from_millis(500));
+        let now = start.elapsed().as_millis() as u64;
+        for w in 0..SLOTS {
+            let fam = slots[w * WORDS].load(Ordering::Relaxed);
+            if fam == 0 {
+                continue;
+            }
+            let idx = slots[w * WORDS + 1].load(Ordering::Relaxed);
+            let t0 = slots[w * WORDS + 2].load(Ordering::Relaxed);
+            if slots[w * WORDS].load(Ordering::Relaxed) != fam || slots[w * WORDS + 1].load(Ordering::Relaxed) != idx {
+                continue;
+            }
+            if now.saturating_sub(t0) as f64 / 1000.0 > cfg.hang_s {
+                // the case cannot be interrupted: report it and leave
+                let fname = names.get(fam as usize - 1).cloned().unwrap_or_default();
+                let mut o = Json::obj();
+                o.set("property", Json::str(&cfg.property));
+                o.set("profile", Json::str(&cfg.profile));
+                o.set("seed", Json::num(cfg.seed as f64));
+                o.set("evaluations", Json::num(1.0));
+                o.set("distinct_nontrivial", Json::num(0.0));
+                o.set("families", Json::Arr(vec![]));
+                o.set("counters", Json::obj());
+                o.set("maxima", Json::obj());
+                o.set("samples", Json::Arr(vec![]));
+                o.set("known_findings", Json::Arr(vec![]));
+                o.set("violation_count", Json::num(1.0));
+                let mut vk = Json::obj();
+                vk.set("hang.case_did_not_return", Json::num(1.0));
+                o.set("violation_kinds", vk);
+                let mut v = Json::obj();
+                v.set("monitor", Json::str("hang.case_did_not_return"));
+                v.set("family", Json::str(&fname));
+                v.set("index", Json::num(idx as f64));
+                v.set(
+                    "detail",
+                    Json::str(&format!(
+                        "case {}#{} did not return within {} s (cases of this family normally take micro- to milliseconds); the code under test does not complete on this input. The run was aborted, other cases of this run are not reported.",
+                        fname, idx, cfg.hang_s
+                    )),
+                );
+                o.set("violations", Json::Arr(vec![v]));
+                o.set("aborted_by_hang_watchdog", Json::Bool(true));
+                let text = o.to_string();
+                match &cfg.out_file {
+                    Some(f) => {
+                        let _ = std::fs::write(f, text.as_bytes());
+                    }
+                    None => println!("{}", text),
+                }
+                std::process::exit(1);
+            }
+        }
+    });
+}
 
 pub struct FamilyStat {
     pub name: String,
@@ -353,8 +456,13 @@ pub fn run(cfg: &Config, families: &[Box<dyn Family>]) -> Outcome {
     let mut merged = Local::new(false);
     let mut stats = Vec::new();
     let budget_hit = AtomicBool::new(false);
+    let slots = inflight(cfg.inflight_file.as_deref());
+    for s in slots.iter() {
+        s.store(0, Ordering::Relaxed);
+    }
+    spawn_hang_watchdog(cfg, families.iter().map(|f| f.name()).collect(), start);
 
-    for fam in families {
+    for (fam_ord, fam) in families.iter().enumerate() {
         let name = fam.name();
         if let Some((ref f, _)) = cfg.replay {
             if *f != name {
@@ -370,14 +478,28 @@ pub fn run(cfg: &Config, families: &[Box<dyn Family>]) -> Outcome {
         let threads = if cfg.replay.is_some() { 1 } else { cfg.threads.max(1) };
 
         std::thread::scope(|s| {
-            for _ in 0..threads {
-                s.spawn(|| {
+            for worker in 0..threads {
+                let name = &name;
+                let next = &next;
+                let done = &done;
+                let results = &results;
+                let budget_hit = &budget_hit;
+                s.spawn(move || {
+                    let w = (worker % SLOTS) * WORDS;
+                    let mark = |idx: u64| {
+                        slots[w + 1].store(idx, Ordering::Relaxed);
+                        slots[w + 2].store(start.elapsed().as_millis() as u64, Ordering::Relaxed);
+                        slots[w].store(fam_ord as u64 + 1, Ordering::Relaxed);
+                    };
+                    let clear = || slots[w].store(0, Ordering::Relaxed);
                     let mut local = Local::new(cfg.replay.is_some());
                     local.family = name.clone();
                     if let Some((_, idx)) = cfg.replay {
                         QUIET.with(|q| q.set(false));
                         if idx < len {
+                            mark(idx);
                             run_one(fam.as_ref(), idx, cfg, &mut local);
+                            clear();
                             done.fetch_add(1, Ordering::Relaxed);
                         } else {
                             eprintln!("replay index {} out of range (family has {} cases at this tier/scale)", idx, len);
@@ -394,8 +516,10 @@ pub fn run(cfg: &Config, families: &[Box<dyn Family>]) -> Outcome {
                             }
                             let to = (from + chunk).min(len);
                             for idx in from..to {
+                                mark(idx);
                                 run_one(fam.as_ref(), idx, cfg, &mut local);
                             }
+                            clear();
                             done.fetch_add(to - from, Ordering::Relaxed);
                         }
                     }
